@@ -623,8 +623,15 @@ func genAdvPeer(rt *rapid.T, nm *hx.NodeMachine, cfg genCfg) hx.NOp {
 			base := nm.States[m.Tip]
 			adv := genAdvOpOn(rt, nm, cfg, base.Clone())
 			frozen := adv.Tx == nil
+			pending := map[string]bool{}
+			for _, ptx := range nm.Pool {
+				pending[hex.EncodeToString(ptx.Txid)] = true
+			}
 			if adv.Tx != nil {
 				for _, in := range adv.Tx.Ins {
+					if pending[in.Txid] {
+						frozen = true // cites an output of a pending transaction (the spent / off-chain family draws from the pool)
+					}
 					if in.Frozen != 0 {
 						frozen = true
 					}
